@@ -126,10 +126,10 @@ func init() {
 	addSpec(&Spec{ID: "C11", Title: "a truncated file is never accepted", Level: "fault_enumeration",
 		Shapes: portfolioMain,
 		Rule: "EVERY strict prefix (length 0..len-1) of: the C08 workload files (0.3-12 KiB, 3 codecs), one ~180 KiB uncompressed file (byte patterns that look like footer lengths beyond one I/O buffer), " +
-			"reference-written files whose footer tail reads as a plausible footer length (created_by chosen accordingly), and files whose string VALUES embed the footer of a shorter version of the same file followed by 8 arrangements of length words and magic; " +
+			"reference-written files whose footer tail reads as a plausible footer length (created_by chosen accordingly), and files whose string VALUES embed the footer of a shorter version of the same file followed by 8 arrangements of length words and magic, or the whole trailer of other files, or (self-footer) the file's OWN trailer as the last bytes of its first and second row group; " +
 			"plus the 1..8-byte tail cuts of ~800 tiny files of varying footer size; thorough adds 20-60 KiB files with targeted cuts; oracle = constructor or Error() reports an error, no panic — except for prefixes that the reference parser finds to be valid files by themselves (not judged); " +
 			"distinct = (file, cut); non-trivial = cut inside footer, trailer, page header, page body, at a page boundary or between row groups",
-		Require:    []string{"cut_footer", "cut_footer_length", "cut_trailer_magic", "cut_page_header", "cut_page_body", "cut_between_row_groups", "cut_page_boundary", "big_file_cuts", "resonant_footer_cuts", "embedded_footer_cuts", "trailer_files"},
+		Require:    []string{"cut_footer", "cut_footer_length", "cut_trailer_magic", "cut_page_header", "cut_page_body", "cut_between_row_groups", "cut_page_boundary", "big_file_cuts", "resonant_footer_cuts", "embedded_footer_cuts", "trailer_files", "self_footer_row_groups_ending_in_own_trailer"},
 		Exhaustive: func(r *Run) bool { return true },
 		Extra: func(r *Run, cov map[string]interface{}) {
 			cov["exhaustive_note"] = "exhaustive over prefix lengths for every small file; large files (thorough) use the targeted cut set"
